@@ -11,13 +11,16 @@ Inductive leaf : Type := LBool (b : bool) | LNum (z : Z) | LStr (s : string).
 Definition leaf_json (l : leaf) : json :=
   match l with LBool b => JBool b | LNum z => JNum z | LStr s => JStr s end.
 
-(** How a resolver fails: plain error, graphql.SafeError, WrapAsSafeError, panic; [EClient] is a
+(** How a resolver fails: plain error, graphql.SafeError, WrapAsSafeError (a SafeError with an inner
+    cause), panic; [EWrapsSafe] is an ordinary error that merely wraps a safe one
+    (fmt.Errorf("...: %w", safeErr)): it is not itself a SanitizedError; [EClient] is a
     graphql.ClientError raised by the executor itself (bad directive). *)
-Inductive eclass := EPlain | ESafe | EWrapped | EPanic | EClient.
+Inductive eclass := EPlain | ESafe | EWrapped | EPanic | EClient | EWrapsSafe.
 
 Definition eclass_eqb (a b : eclass) : bool :=
   match a, b with
-  | EPlain, EPlain | ESafe, ESafe | EWrapped, EWrapped | EPanic, EPanic | EClient, EClient => true
+  | EPlain, EPlain | ESafe, ESafe | EWrapped, EWrapped | EPanic, EPanic | EClient, EClient
+  | EWrapsSafe, EWrapsSafe => true
   | _, _ => false
   end.
 
@@ -25,7 +28,7 @@ Record err : Type := mk_err { e_class : eclass; e_text : string }.
 
 Definition err_eqb (a b : err) : bool := eclass_eqb (e_class a) (e_class b) && String.eqb (e_text a) (e_text b).
 
-(** err.(SanitizedError) *)
+(** err.(SanitizedError): a type assertion on the error itself, not errors.As through its chain. *)
 Definition safe (e : err) : bool :=
   match e_class e with ESafe | EWrapped | EClient => true | _ => false end.
 
